@@ -183,8 +183,11 @@ pub fn underlying_source(
         return Source::Path;
     }
     for _ in 0..6 {
-        let (e, r) = g.walk_glob(model, base, 1, true, &mut stats.rejections);
-        if !prefix_touches_link(model, base, &e, r) {
+        let (e, r) = g.walk_glob(model, base, if model.is_dir_node(base) { 1 } else { 0 }, true, &mut stats.rejections);
+        // (the properties that use this source compare with a second execution of the same walk,
+        // so a walk root that is a link — followed whatever the policy — needs no interpretation;
+        // half of such draws are kept)
+        if !prefix_touches_link(model, base, &e, r) || g.rng.chance(1, 2) {
             let probe = Walker {
                 source: Source::Glob { expr: e.clone(), rooted: r },
                 base: base.to_string(),
